@@ -96,6 +96,12 @@ macro_rules! sweep_fn {
         }
     };
 }
+fn big_c07(ctx: &Ctx, case: u64, acc: &mut Acc) -> Verdict {
+    crate::checks::c06::big_items_case(ctx, case, acc, Arm::only("C07"))
+}
+fn big_c16(ctx: &Ctx, case: u64, acc: &mut Acc) -> Verdict {
+    crate::checks::c06::big_items_case(ctx, case, acc, Arm::only("C16"))
+}
 sweep_fn!(sweep_c07, "C07");
 sweep_fn!(sweep_c15, "C15");
 sweep_fn!(sweep_c16, "C16");
@@ -118,6 +124,7 @@ pub fn c07() -> Check {
             Workload { name: "exh", f: exh_c07, quick: 1_024, thorough: 1_024, flav: Flav::Checked },
             Workload { name: "simmon", f: simmon_c07, quick: 1_500, thorough: 80_000, flav: Flav::Checked },
             Workload { name: "sweep", f: sweep_c07, quick: 1_100, thorough: 55_000, flav: Flav::Checked },
+            Workload { name: "big", f: big_c07, quick: 400, thorough: 20_000, flav: Flav::Plain },
         ],
         exhaustive: false,
     }
@@ -249,6 +256,7 @@ pub fn c16() -> Check {
             Workload { name: "chaos", f: chaos_c16, quick: 20_000, thorough: 1_000_000, flav: Flav::Both },
             Workload { name: "driver", f: driver_c16, quick: 30_000, thorough: 1_500_000, flav: Flav::Both },
             Workload { name: "sweep", f: sweep_c16, quick: 1_100, thorough: 55_000, flav: Flav::Both },
+            Workload { name: "big", f: big_c16, quick: 400, thorough: 20_000, flav: Flav::Plain },
             Workload { name: "simmon", f: simmon_c16, quick: 1_500, thorough: 80_000, flav: Flav::Checked },
         ],
         exhaustive: false,
